@@ -94,6 +94,9 @@ def run_c01(tier, seed):
     clines += ["int %d" % z for z in ints]
     import struct
     fl = [0.0, -0.0, 1.0, -1.0, 0.1, 1e21, 1e-7, 5e-324, 1.7976931348623157e308, 2.2250738585072014e-308, 123456789.125, 1e6, 999999.0, 2.0**53, 2.0**53 + 2]
+    # integral values around the integer types' limits and the switch to exponent notation
+    fl += [s_ * v for s_ in (1.0, -1.0) for v in (2.0**31, 2.0**32, 2.0**62, 2.0**63, 2.0**63 + 2048, 2.0**64, 1e15, 1e16, 1e17, 1e18, 1e19, 1e20, 9.999999999999999e20, 1e21, 1e22, 1e100, 18446744073709551615.0)]
+    fl += [float(rng.randrange(2**53)) * 2.0**rng.randint(0, 20) for _ in range(60)]
     nfl = 300 if tier == "quick" else 5000
     while len(fl) < nfl:
         bits = rng.getrandbits(64)
@@ -161,6 +164,11 @@ def run_c02(tier, seed):
     edge = G.boundary_trees(rng) if tier != "quick" else G.boundary_trees(rng, [1024, 1025, 1500], [4096, 16383, 16384, 16385, 65536])
     for t in edge:
         streams.append([t, ('i', b"42"), ('b', b"tail")])
+    # long streams on one parser (a connection lives long): many small values of one kind, then something else - state that a
+    # value leaves behind in the parser shows up only after many of them
+    for kind in (('na',), ('a', []), ('b', None), ('b', b""), ('a', [('a', [('a', [])])]), ('i', b"0")):
+        for nrep in (17, 40, 130):
+            streams.append([kind] * nrep + [('a', [('b', b"GET"), ('b', b"k")]), ('a', [('a', [('b', b"x")])]), ('s', b"OK")])
     lines, meta = [], []
     kinds = {}
     for vals in streams:
